@@ -4,6 +4,10 @@ TB = ("Trusted: Lean 4.33 kernel (axioms at most propext, Classical.choice, Quot
       "the hand-written model, tied to the code only by the correspondence run (differential testing of the model's executable definitions against the real crate on generated and enumerated inputs); "
       "SHA-256 as a free term algebra. ")
 TEXT = {
+    "C19": {
+        "text": "Theorem: importing any set of logs (distinct owners) into an empty database in any order leaves every log with exactly the source records in order and its tree equal to their commits (same root and length, hence the same sync status and conflict-free syncing); equal event sequences replay to the same folder on either backend. Tie (per-instance translation validation): generated file-system accounts are dry-run upgraded (directory tree digest unchanged), really upgraded, and compared before/after on sync status, decrypted folders and trusted devices; a synced account's upgraded device must sync without conflict and without changing the server; the same history executed directly on both backends must give the same folders and log lengths.",
+        "note": TB + "Modelled rather than verified: sqlite, the file formats; preferences / servers / blobs not yet compared.",
+    },
     "C03": {
         "text": "Theorems: every artefact skeleton the SDK persists or sends (vault rows, secret events, vault headers, identity-vault entries, file blobs, id-only events, audit rows, sync messages of any length) keeps every secret under an encryption; from ANY set of such terms, without a key, no secret and no key is derivable (Dolev-Yao induction); over the event definitions regenerated from the source, the only String payloads are folder/account names and every payload type is a known identifier / sealed / encoded type. Tie: implementation-side byte scan of all client and server files (sqlite pages, WAL, vaults, logs, blobs) and of every encoded sync message for 60+ high-entropy markers placed in every text position, in raw/hex/base64/UTF-16 forms, with a scanner self-check.",
         "note": TB + "Partial: cipher strength, memory, swap, stderr tracing are runtime aspects outside the model; pairing messages not exercised.",
